@@ -503,6 +503,10 @@ def c19_prism(rng, kind):
 
 
 def c19_radius(rng, d):
+    # a rounding radius of exactly 0 is legal (only negative radii are refused) and sits on the branch boundary of
+    # every "has a radius" test
+    if rng.random() < 0.25:
+        return 0.0
     return float(d * 10 ** rng.uniform(-2, 0.3))
 
 
@@ -1180,6 +1184,8 @@ def gsd_variant_cases(rng, ctx):
     base["ConvexPolyhedron"] = ([("type", "ConvexPolyhedron"), ("vertices", cv.tolist())], {})
     base["ConvexPolyhedron+r"] = ([("type", "ConvexPolyhedron"), ("vertices", cv.tolist()),
                                    ("rounding_radius", 0.1 * gen.diameter(cv))], {})
+    base["Polygon+r0"] = ([("type", "Polygon"), ("vertices", pv.tolist()), ("rounding_radius", 0.0)], {"convex": True})
+    base["ConvexPolyhedron+r0"] = ([("type", "ConvexPolyhedron"), ("vertices", cv.tolist()), ("rounding_radius", 0.0)], {})
     mv, mf = c19_prism(rng, "L")
     base["Mesh"] = ([("type", "Mesh"), ("vertices", mv.tolist()), ("indices", ("idx", mf))], {})
     for name, (items, ext) in base.items():
